@@ -43,6 +43,8 @@ struct Node {
     from_handler: mpsc::Receiver<HandlerOut>,
     wire: VirtualWire,
     _exit: oneshot::Sender<()>,
+    /// the configuration value the node was started from (a restart starts from a clone of it)
+    config: discv5::Config,
     wru: Vec<WhoAreYouRef>,
     requests: Vec<(NodeAddress, Request)>,
     c_nonce: u64,
@@ -1401,6 +1403,7 @@ impl Runner for HandlerRunner {
                         .build();
                     let enr_arc = Arc::new(parking_lot::RwLock::new(enr.clone()));
                     let key_arc = Arc::new(parking_lot::RwLock::new(key_of_idx(idx)));
+                    let kept_config = config.clone();
                     let res = rt.block_on(async {
                         let mut config = config;
                         config.executor = Some(Box::new(discv5::TokioExecutor::default()));
@@ -1411,7 +1414,7 @@ impl Runner for HandlerRunner {
                         return;
                     };
                     self.nodes.push(Node {
-                        idx, key, enr, addr, to_handler, from_handler, wire, _exit: exit,
+                        idx, key, enr, addr, to_handler, from_handler, wire, _exit: exit, config: kept_config,
                         wru: Vec::new(), requests: Vec::new(), c_nonce: 0, c_cd: 0, c_eph: 0, c_rid: 0,
                     });
                     let un = match adv {
@@ -2009,6 +2012,30 @@ impl HandlerRunner {
                 let ms: u64 = ms.parse().unwrap_or(1);
                 stats.bump("h.op.adv");
                 self.finish(None, None, ms, out, stats);
+            }
+            // node X is shut down and started again from (a clone of) the configuration value it was
+            // started from - what `Discv5::shutdown` followed by `Discv5::start` does
+            ["hrespawn", x] => {
+                if let (Some(xi), Some(rt)) = (self.node_pos(x), self.rt.as_ref()) {
+                    let (enr, idx, addr) = (self.nodes[xi].enr.clone(), self.nodes[xi].idx, self.nodes[xi].addr);
+                    let config = self.nodes[xi].config.clone();
+                    let enr_arc = Arc::new(parking_lot::RwLock::new(enr));
+                    let key_arc = Arc::new(parking_lot::RwLock::new(key_of_idx(idx)));
+                    let res = rt.block_on(async {
+                        let mut config = config;
+                        config.executor = Some(Box::new(discv5::TokioExecutor::default()));
+                        Handler::spawn_virtual(enr_arc, key_arc, config, vec![addr]).await
+                    });
+                    if let Ok(((exit, to_handler, from_handler), wire)) = res {
+                        let n = &mut self.nodes[xi];
+                        n.to_handler = to_handler;
+                        n.from_handler = from_handler;
+                        n.wire = wire;
+                        n._exit = exit;
+                        stats.bump("h.op.node-restarted");
+                    }
+                }
+                self.finish(None, None, 1, out, stats);
             }
             // the application of node X stops / resumes reading what its handler reports (a slow consumer:
             // the bounded channel fills up; whatever the handler has to say is said once there is room)
@@ -2617,6 +2644,28 @@ pub fn gen_case(rng: &mut Rng, tier: &str, profile: &str, stats: &mut Stats) -> 
             ops.push("hdel next".into());
             ops.push("hwru 2 next known".into());
             ops.push("hdel next".into());
+        }
+        ops.push("hquiet".into());
+        return ops;
+    }
+    if profile == "C19respawn" {
+        // a node challenges a few strangers, is shut down and started again from the same configuration
+        // value, and challenges a few more: no id-nonce of its first life comes back in its second
+        stats.bump("gen.cases.node-restarted");
+        let mut ops = vec!["hworld 2 1 400 1000 86400000".to_string()];
+        // (three lives: whatever else was started in between, the second and the third begin alike)
+        for life in 0..3 {
+            for _ in 0..rng.range(3, 6) {
+                ops.push("hcraft random 9 1".into());
+                ops.push("hdel last 9".into());
+                ops.push("hdel skip".into());
+                ops.push(format!("hwru 1 next {}", if rng.chance(1, 2) { "none" } else { "known" }));
+                ops.push("hdel skip".into());
+                ops.push("hadv 450".into());
+            }
+            if life < 2 {
+                ops.push("hrespawn 1".into());
+            }
         }
         ops.push("hquiet".into());
         return ops;
